@@ -70,7 +70,7 @@ impl<O: DataOrder> LoadStore<O> for RawU8 {
 impl<O: DataOrder> LoadStore<O> for RawU16 {
     fn load(buffer: &[u8], index: usize) -> Option<Self> {
         buffer
-            .get(index * 2..)
+            .get(index.checked_mul(2)?..)
             .and_then(|buffer| buffer.get(0..2))
             .map(|slice| {
                 let bytes = slice.try_into().unwrap();
@@ -93,7 +93,7 @@ impl<O: DataOrder> LoadStore<O> for RawU16 {
         };
 
         buffer
-            .get_mut(index * 2..)
+            .get_mut(index.checked_mul(2).ok_or(OutOfBoundsError)?..)
             .and_then(|buffer| buffer.get_mut(0..2))
             .ok_or(OutOfBoundsError)
             .map(|buffer| buffer.copy_from_slice(&bytes))
@@ -103,7 +103,7 @@ impl<O: DataOrder> LoadStore<O> for RawU16 {
 impl<O: DataOrder> LoadStore<O> for RawU24 {
     fn load(buffer: &[u8], index: usize) -> Option<Self> {
         buffer
-            .get(index * 3..)
+            .get(index.checked_mul(3)?..)
             .and_then(|buffer| buffer.get(0..3))
             .map(|slice| {
                 let bytes: [_; 3] = slice.try_into().unwrap();
@@ -135,7 +135,7 @@ impl<O: DataOrder> LoadStore<O> for RawU24 {
         };
 
         buffer
-            .get_mut(index * 3..)
+            .get_mut(index.checked_mul(3).ok_or(OutOfBoundsError)?..)
             .and_then(|buffer| buffer.get_mut(0..3))
             .ok_or(OutOfBoundsError)
             .map(|buffer| buffer.copy_from_slice(bytes))
@@ -145,7 +145,7 @@ impl<O: DataOrder> LoadStore<O> for RawU24 {
 impl<O: DataOrder> LoadStore<O> for RawU32 {
     fn load(buffer: &[u8], index: usize) -> Option<Self> {
         buffer
-            .get(index * 4..)
+            .get(index.checked_mul(4)?..)
             .and_then(|buffer| buffer.get(0..4))
             .map(|slice| {
                 let bytes = slice.try_into().unwrap();
@@ -168,7 +168,7 @@ impl<O: DataOrder> LoadStore<O> for RawU32 {
         };
 
         buffer
-            .get_mut(index * 4..)
+            .get_mut(index.checked_mul(4).ok_or(OutOfBoundsError)?..)
             .and_then(|buffer| buffer.get_mut(0..4))
             .ok_or(OutOfBoundsError)
             .map(|buffer| buffer.copy_from_slice(&bytes))
